@@ -35,13 +35,13 @@ PROPS = {
     "C07": dict(level="model_checking",
                 technique="TLC exhaustive on IrredKernel.tla (irreducible + symmetrised integral = full integral = full integral with "
                           "symmetrisation alone, to_grid reproduces the tabulated field, for every catalogue group x grid x factorisation x "
-                          "tensor rank 0-2 x TR/inversion behaviour, for hash fields and - model only - for the delta basis of all integer "
-                          "fields) + replay of finished TLC states (every group and grid, seeded sample of factorisations: quick at most 40 run "
+                          "tensor rank 0-2 x TR/inversion behaviour, for hash fields and - model only, thorough tier - for the delta basis of all "
+                          "integer fields) + replay of finished TLC states (every group and grid, seeded sample of factorisations: quick at most 40 run "
                           "configurations, thorough 500) through the real run() with the specification's covariant field injected via "
                           "data_K.kpoints_all + TLC validation of recorded runs + float comparisons (fields with the transforms outside the "
                           "model, all real calculators on symmetric models)",
                 text="TLC builds covariant integer tensor fields (rank 0-2, even/odd/transposing under time reversal and inversion) for the "
-                     "catalogue of magnetic point groups (quick: 9 and without the transposing rank-2 behaviour, thorough: 25) and checks that the weighted, symmetrised sum over the "
+                     "catalogue of magnetic point groups (quick: 8 and without the transposing rank-2 behaviour, thorough: 25) and checks that the weighted, symmetrised sum over the "
                      "irreducible K-points equals the plain sum over the full grid and that the symmetry images collected by to_grid reproduce "
                      "the field; a wrongly declared parity is rejected. Sampled finished states are executed on the real run() "
                      "(use_irred_kpt=True vs use_irred_kpt=False, symmetrize=False; symmetrize=True alone for a subset) with a synthetic "
@@ -160,7 +160,7 @@ def part_kernel(rep, thorough, rng, tag):
                 ("ik_big", ik_cfg(["C4v", "mFe", "T23", "Oh"], "NSb", [0, 1, 2], [1], False, False))]
     else:
         # quick: transposing rank-2 behaviour (transform_trans) is left to the thorough tier and to the float fields
-        cfgs = [("ik", ik_cfg(["T", "C2v", "C4v", "mC4v", "mFe", "Oh", "H6v", "H3T", "mH6v"], "NSq", [0, 1, 2], [1], False, False))]
+        cfgs = [("ik", ik_cfg(["T", "C2v", "C4v", "mC4v", "mFe", "Oh", "H6v", "mH6v"], "NSq", [0, 1, 2], [1], False, False))]
     spec_groups = {}
     runs = {}          # (grp, N, div, fft) -> {(rank, tTR, tInv): {seed: state}}
     for name, cfg in cfgs:
@@ -276,15 +276,13 @@ def part_kernel(rep, thorough, rng, tag):
 
 
 def part_model_only(rep, thorough, tag):
-    # the delta basis: by linearity this decides the clauses for every integer source field (TLC only, not replayed)
+    # the delta basis: by linearity this decides the clauses for every integer source field (TLC only, not replayed; thorough tier)
     if thorough:
         cfg = ik_cfg(sorted(KS.CART) + sorted(KS.HEX), "NSd", [0, 1, 2], [], True, True)
-    else:
-        cfg = ik_cfg(["C4v", "mC4", "H6v"], "NSdq", [0, 1], [], True, False)
-    st = run_model(rep, "MC_IrredKernel.tla", cfg, "delta", dump=False, timeout=3000, workroot=os.path.join(WORK, tag))
-    ftable.spec_violation(rep, st, "c07_delta")
-    rep.add_tlc("c07_delta", st)
-    rep.part("c07_delta", replayed_on_the_code=False)
+        st = run_model(rep, "MC_IrredKernel.tla", cfg, "delta", dump=False, timeout=3000, workroot=os.path.join(WORK, tag))
+        ftable.spec_violation(rep, st, "c07_delta")
+        rep.add_tlc("c07_delta", st)
+        rep.part("c07_delta", replayed_on_the_code=False)
     # sensitivity: a wrongly declared parity must break the property
     for decl, groups in ((("flipInv", ["C4v"]), ("flipTR", ["T", "mFe"])) if thorough else (("flipTR", ["T", "mFe"]),)):
         s2 = tlc.run_tlc("MC_IrredKernel.tla", ik_cfg(groups, "NSs", [0, 1, 2], [1], False, False, decl), decl, workers=min(4, WORKERS),
@@ -362,18 +360,8 @@ def random_records(rep, n, rng, tag):
 def part_records(rep, recs, tag):
     if not recs:
         return
-    stv, bad = ftable.validate_records("IrredKernelRec.tla", ftable.REC_CFG, recs, tag, timeout=2400, chunk=500)
-    rep.add_tlc("c07_records", stv)
-    rep.add_traces(len(recs))
-    for i, clauses in sorted(bad.items()):
-        r = recs[i]
-        if "system_symmetric" in clauses or "shape" in clauses:
-            raise MachineryError(f"harness built a non-covariant field for record {i}: {dict((k, r[k]) for k in ('grp', 'div', 'fft', 'rank', 'tTR', 'tInv'))}")
-        site = "tab" if all(c.startswith("tab") for c in clauses) else "run"
-        rep.violation(f"{site}:recorded:rank{r['rank']}", dict(record={k: v for k, v in r.items() if k not in ("tabirr", "tabfull")}, failing_clauses=clauses))
-    rep.sample({k: v for k, v in recs[0].items() if k not in ("tabirr", "tabfull", "fld")})
 
-    # binding self-test
+    # binding self-test: corrupted copies travel in the same batch (one TLC run) and must be rejected
     def bump(x):
         if not isinstance(x, list):
             return x + 1
@@ -387,13 +375,25 @@ def part_records(rep, recs, tag):
     c3["fld"][-1] = bump(c3["fld"][-1])
     c4 = copy.deepcopy(base)
     c4["symonly"] = bump(c4["symonly"])
-    _, b2 = ftable.validate_records("IrredKernelRec.tla", ftable.REC_CFG, [c1, c2, c3, c4], tag + "_selftest")
+    corrupted = [c1, c2, c3, c4]
     want = [{"irr_equals_full", "irr_is_spec"}, {"tab_irr"}, {"system_symmetric", "full_is_gridsum", "tab_irr", "tab_full"},
             {"symonly_equals_full", "symonly_is_spec"}]
+    stv, bad = ftable.validate_records("IrredKernelRec.tla", ftable.REC_CFG, recs + corrupted, tag, timeout=2400, chunk=100000)
+    stv = dict(stv, distinct=stv["distinct"] - len(corrupted), generated=stv["generated"] - 2 * len(corrupted))
+    rep.add_tlc("c07_records", stv)
+    rep.add_traces(len(recs))
+    b2 = {i - len(recs): bad.pop(i) for i in sorted(bad) if i >= len(recs)}
     for i, w in enumerate(want):
         if i not in b2 or not (set(b2[i]) & w):
             raise MachineryError(f"binding self-test failed: corrupted record {i} accepted (failing clauses {b2.get(i)})")
     rep.part("binding_selftest", corrupted_records_rejected={str(i): b2[i] for i in b2})
+    for i, clauses in sorted(bad.items()):
+        r = recs[i]
+        if "system_symmetric" in clauses or "shape" in clauses:
+            raise MachineryError(f"harness built a non-covariant field for record {i}: {dict((k, r[k]) for k in ('grp', 'div', 'fft', 'rank', 'tTR', 'tInv'))}")
+        site = "tab" if all(c.startswith("tab") for c in clauses) else "run"
+        rep.violation(f"{site}:recorded:rank{r['rank']}", dict(record={k: v for k, v in r.items() if k not in ("tabirr", "tabfull")}, failing_clauses=clauses))
+    rep.sample({k: v for k, v in recs[0].items() if k not in ("tabirr", "tabfull", "fld")})
 
 
 # ------------------------------------------------------------------------------------------------------------------
@@ -406,7 +406,8 @@ def T_(factor=1, conj=False, perm=None):
 
 # (group, rank, transform under TR, transform under inversion, how the transposition is declared, complex field)
 FLOAT_CASES_QUICK = [
-    ("mFe", 3, T_(-1, perm=(0, 2, 1)), T_(-1), "transpose_axes", False),          # transform_odd_trans_021 (dynamic.SHC)
+    ("mC4v", 3, T_(-1, perm=(0, 2, 1)), T_(-1), "transpose_axes", False),         # transform_odd_trans_021 (dynamic.SHC)
+    ("SiT", 3, T_(-1, perm=(0, 2, 1)), T_(1), "transpose_axes", False),
     ("D4hT", 3, T_(-1, perm=(1, 0, 2)), T_(1), "transpose_axes", False),          # transform_odd_trans_102 (formula.sdct)
     ("mC4v", 2, T_(-1, conj=True), T_(1), "transpose_axes", True),                # transform_odd_conj
     ("SiT", 2, T_(1, perm=(1, 0)), T_(-1), "swap_axes", False),                   # Transform(swap_axes=...)
@@ -417,7 +418,7 @@ FLOAT_CASES_QUICK = [
     ("mFe", 2, T_(1, perm=(1, 0)), T_(1), "transpose_axes", False),               # transform_trans (OpticalConductivity), cubic
 ]
 FLOAT_CASES_MORE = [
-    ("Oh", 3, T_(1), T_(-1), "transpose_axes", False), ("SiT", 3, T_(-1, perm=(0, 2, 1)), T_(1), "transpose_axes", False),
+    ("Oh", 3, T_(1), T_(-1), "transpose_axes", False), ("mFe", 3, T_(-1, perm=(0, 2, 1)), T_(-1), "transpose_axes", False),
     ("mC4", 3, T_(-1, perm=(1, 0, 2)), T_(1), "swap_axes", False), ("T23", 3, T_(1), T_(1), "transpose_axes", False),
     ("mFe", 2, T_(1, conj=True, perm=(1, 0)), T_(-1), "transpose_axes", True), ("C4v", 3, T_(1), T_(-1), "transpose_axes", False),
     ("H6", 1, T_(1), T_(1), "transpose_axes", False), ("H6", 2, T_(1), T_(1), "transpose_axes", False),
@@ -441,24 +442,31 @@ def part_float_fields(rep, thorough, rng, tag, configs):
         G = sorted(KS.project_group(KS.make_system(grp).pointgroup))
         lat = KS.lattice_of(grp)
         cand = [c for c in by_grp.get(grp, []) if 4 <= int(np.prod(c[1])) <= 64]
-        if cand:
-            picks = [cand[rng.randrange(len(cand))] for _ in range(nfields)]
-        else:          # group not in the (quick) model: a grid on which both factors are symmetric
-            picks = None
-            for N, div in (((4, 4, 1), (2, 2, 1)), ((2, 2, 2), (1, 1, 1)), ((2, 2, 2), (2, 2, 2))) if KS.is_cart(grp) else (((3, 3, 2), (3, 3, 1)),):
+        if not cand:          # group not in the (quick) model: grids on which both factors are symmetric
+            shapes = (((4, 4, 1), (2, 2, 1)), ((4, 4, 1), (4, 4, 1)), ((2, 2, 2), (2, 2, 2)), ((4, 4, 4), (2, 2, 2))) if KS.is_cart(grp) else \
+                (((3, 3, 2), (3, 3, 1)), ((3, 3, 1), (3, 3, 1)), ((6, 6, 1), (3, 3, 1)))
+            for N, div in shapes:
                 fft = tuple(n // d for n, d in zip(N, div))
                 if KS.symmetric_grid(N, G) and KS.symmetric_grid(div, G) and KS.symmetric_grid(fft, G):
-                    picks = [(grp, N, div, fft)] * nfields
-                    break
-            if picks is None:
+                    cand.append((grp, N, div, fft))
+            if not cand:
                 raise MachineryError(f"no symmetric grid chosen for {grp}")
+        picks = [cand[rng.randrange(len(cand))] for _ in range(nfields)]
         tTR, tInv = KS.make_transform(sTR, how), KS.make_transform(sInv, how)
         for (_, N, div, fft) in picks:
             Ntot = int(np.prod(N))
-            h = nprng.randint(-3, 4, size=tuple(N) + (3,) * rank).astype(complex if cplx else float)
-            if cplx:
-                h = h + 1j * nprng.randint(-3, 4, size=h.shape)
-            f, defect = KS.sym_field_float(h, N, G, lat, rank, sTR, sInv)
+            for redraw in range(6):
+                h = nprng.randint(-3, 4, size=tuple(N) + (3,) * rank).astype(complex if cplx else float)
+                if cplx:
+                    h = h + 1j * nprng.randint(-3, 4, size=h.shape)
+                f, defect = KS.sym_field_float(h, N, G, lat, rank, sTR, sInv)
+                if np.abs(f).max() > 0:
+                    break
+                # every covariant field of this kind vanishes on this grid (e.g. inversion-odd on a grid of inversion-invariant points)
+                (_, N, div, fft) = cand[rng.randrange(len(cand))]
+                Ntot = int(np.prod(N))
+            else:
+                raise MachineryError(f"vacuous float case: covariant fields of {grp} rank {rank} vanish on every grid tried")
             en, _ = KS.sym_field_float(nprng.randint(0, 5, size=tuple(N)).astype(float), N, G, lat, 0, T_(1), T_(1))
             scale = max(1.0, float(np.abs(f).max()))
             if defect > 1e-10 * scale:
